@@ -1,5 +1,10 @@
 import BearVerif.Core.Loop
 import BearVerif.Driver.Bear
-/-! Bear core driver: `lake env lean --run MainBear.lean`. -/
+import BearVerif.Driver.Cause
+/-! Bear core driver: `lake env lean --run MainBear.lean` (native: `beardriver`). Requests: `(gen …)`, `(run …)`,
+    `(bfs …)` (placeholder mechanism), `(cause …)` (instrumented violation finder). -/
 open BearVerif
-def main : IO Unit := runLoop Bear.handle
+def main : IO Unit := runLoop fun req =>
+  match Bear.handle req with
+  | some r => some r
+  | none => Bear.causeHandle req
